@@ -57,6 +57,13 @@ SNIP = [
     ("def f(a: list[str]) -> dict[str, int]:\n    return {}\nprint(f(['a']))", 1),
     ("d2: dict[str, int] = dict()\nd2['a'] = 1\nprint(d2)", 1), ("tp: tuple[int, str] = (1, 'a')\nprint(tp[1])", 1),
     ("lst = [1, 2, 3]\nprint(lst[3], lst[-1], lst[0:2])", 1), ("word = 'abc'\nprint(word[3], word[-1])", 1),
+    # a standard module read, and written (the pair collides on the process-wide module types)
+    ("import math\nradius = 2\narea = math.pi + radius\nprint(area)", 1),
+    ("import math\nmath.pi = 'about three'\nprint(math.pi)", 1),
+    # tuples that reach + as a parameter, a slice, a repetition (not as literals)
+    ("def extend(point):\n    return point + (0,)\nq = extend((1, 2))\nprint(q)", 1),
+    ("a = (1, 2, 3)\nb = a[:2] + (9,)\nprint(b)", 1), ("c = (1, 2) * 2 + (3,)\nprint(c)", 1),
+    ("def pair(v):\n    return (v, v)\np4 = pair(1) + pair('a')\nprint(p4)", 1),
 ]
 WRAP = ["{}", "def w():\n{i}\nw()", "if True:\n{i}", "for q in range(2):\n{i}", "class W:\n{i}", "while False:\n{i}",
         "try:\n{i}\nexcept Exception:\n    pass"]
